@@ -22,7 +22,7 @@ import (
 
 type screenCfg struct {
 	layout      string
-	info        string // default | inline | hidden
+	info        string // default | inline | hidden | inline-right | right
 	multi       bool
 	width       int
 	height      int
@@ -109,6 +109,26 @@ func checkScreen(rows []string, st *Status, cfg screenCfg) (string, bool) {
 					return msg + fmt.Sprintf(" (row %q)", r), false
 				}
 			}
+		} else if cfg.info == "inline-right" {
+			if strings.HasPrefix(r, cfg.prompt+st.Query) {
+				rest := strings.TrimSpace(r[len(cfg.prompt+st.Query):])
+				m := infoRe.FindStringSubmatch(rest)
+				if m != nil && m[0] == rest {
+					role[i] = "prompt"
+					promptRows++
+					if msg := checkInfo(m, st, cfg); msg != "" {
+						return msg + fmt.Sprintf(" (row %q)", r), false
+					}
+				} else if rest == "" && t == want {
+					// the counter is on the right edge of the prompt row whenever there is room for it
+					need := len(cfg.prompt+st.Query) + 2 + len(fmt.Sprintf("%d/%d (%d)", st.MatchCount, st.TotalCount, len(st.Selected)))
+					if need < cfg.width-2 {
+						return fmt.Sprintf("the prompt row %q does not show the match counter (%d/%d)", r, st.MatchCount, st.TotalCount), false
+					}
+					role[i] = "prompt"
+					promptRows++
+				}
+			}
 		} else if t == want {
 			role[i] = "prompt"
 			promptRows++
@@ -120,13 +140,19 @@ func checkScreen(rows []string, st *Status, cfg screenCfg) (string, bool) {
 		}
 	}
 	// info
-	if cfg.info == "default" {
+	if cfg.info == "default" || cfg.info == "right" {
 		found := 0
 		for i, r := range rows {
 			if role[i] != "" {
 				continue
 			}
 			t := strings.TrimLeft(r, " ")
+			if cfg.info == "right" {
+				t = strings.TrimLeft(r, " -")
+				if m := infoRe.FindStringSubmatch(t); m == nil || strings.TrimSpace(t) != m[0] || !strings.Contains(r, "-") && cfg.width >= 30 {
+					continue
+				}
+			}
 			if m := infoRe.FindStringSubmatch(t); m != nil && strings.HasPrefix(t, m[0]) && (strings.Contains(t, "--") || strings.TrimSpace(t) == m[0] || cfg.width < 30) {
 				if _, isLine := resultIdx[strings.TrimRight(r[minInt(2, len(r)):], " ")]; isLine {
 					continue
@@ -169,7 +195,7 @@ func checkScreen(rows []string, st *Status, cfg screenCfg) (string, bool) {
 		if strings.TrimSpace(r) == "" {
 			continue
 		}
-		if strings.Trim(r, "- ") == "" && cfg.info != "default" {
+		if strings.Trim(r, "- ") == "" && cfg.info != "default" && cfg.info != "right" {
 			role[i] = "separator" // the separator line stays when the info is hidden / inline
 			continue
 		}
@@ -312,7 +338,7 @@ func c15Session(t *rapid.T) {
 	cfg.width = rapid.SampledFrom([]int{24, 30, 40, 61, 90}).Draw(t, "width")
 	cfg.height = rapid.SampledFrom([]int{8, 10, 14, 24}).Draw(t, "height")
 	cfg.layout = rapid.SampledFrom([]string{"default", "reverse", "reverse-list"}).Draw(t, "layout")
-	cfg.info = rapid.SampledFrom([]string{"default", "default", "inline", "hidden"}).Draw(t, "info")
+	cfg.info = rapid.SampledFrom([]string{"default", "default", "inline", "hidden", "inline-right", "right"}).Draw(t, "info")
 	cfg.multi = rapid.Bool().Draw(t, "multi")
 	cfg.prompt = "Q> "
 	args := []string{"--no-mouse", "--no-scrollbar", "--no-unicode", "--pointer", ">", "--marker", "*", "--ellipsis", "..", "--prompt", cfg.prompt, "--layout=" + cfg.layout, "--info=" + cfg.info, "--no-hscroll", "--color=bw"}
@@ -425,7 +451,7 @@ func c15Session(t *rapid.T) {
 	acts := []string{"up", "down", "up", "down", "page-up", "page-down", "half-page-down", "first", "last", "toggle", "toggle-down", "toggle-up", "select-all", "deselect-all", "toggle-all", "clear-selection", "pos(3)", "pos(-2)"}
 	for i := 0; i < nsteps; i++ {
 		var body string
-		switch rapid.SampledFrom([]string{"nav", "nav", "nav", "nav", "query", "query", "reload"}).Draw(t, "kind") {
+		switch rapid.SampledFrom([]string{"nav", "nav", "nav", "nav", "query", "query", "reload", "edit", "edit"}).Draw(t, "kind") {
 		case "reload":
 			loadedAlt = !loadedAlt
 			src, cur := origFile, lines
@@ -439,6 +465,19 @@ func c15Session(t *rapid.T) {
 			if nhl > 0 {
 				cfg.headerLines = cur[:nhl]
 			}
+		case "edit":
+			// actions that redraw only a part of the screen other than the list
+			body = rapid.SampledFrom([]string{"backward-char", "forward-char", "beginning-of-line", "end-of-line", "backward-word", "forward-word", "change-prompt", "change-header", "backward-char+down", "beginning-of-line+toggle"}).Draw(t, "edit")
+			switch body {
+			case "change-prompt":
+				cfg.prompt = rapid.SampledFrom([]string{"Q> ", "P2: ", "> "}).Draw(t, "newPrompt")
+				body = "change-prompt(" + cfg.prompt + ")"
+			case "change-header":
+				h := rapid.SampledFrom([]string{"NEWHEAD one", "NH-a\nNH-b"}).Draw(t, "newHeader")
+				cfg.headers = strings.Split(h, "\n")
+				body = "change-header(" + h + ")"
+			}
+			partial = true
 		case "nav":
 			k := rapid.IntRange(1, 3).Draw(t, "chain")
 			var parts []string
